@@ -686,9 +686,10 @@ class Gen:
             if k < 0.2:
                 return b
             if k < 0.3:
-                return b + Fraction(1, 1024)
+                # just outside: by 2^-10 ... 2^-40 (far below the output rounding, still outside)
+                return b + Fraction(1, 2 ** r.choice([10, 10, 20, 30, 34]))
             if k < 0.4:
-                return a - Fraction(1, 1024)
+                return a - Fraction(1, 2 ** r.choice([10, 10, 20, 30, 34]))
             return a + (b - a) * Fraction(r.randint(0, 1024), 1024)
         return self.dy()
 
@@ -711,9 +712,9 @@ class Gen:
             if k < 0.24:
                 return b
             if k < 0.32:
-                return b + Fraction(1, 1024)
+                return b + Fraction(1, 2 ** r.choice([10, 10, 20, 30, 34]))
             if k < 0.40:
-                return a - Fraction(1, 1024)
+                return a - Fraction(1, 2 ** r.choice([10, 10, 20, 30, 34]))
             return a + (b - a) * Fraction(r.randint(0, 64), 64)
         return r.choice(nice + [self.dy(0, 3000, 2)])
 
